@@ -542,6 +542,24 @@ func genParse(r *rng, tier string) interface{} {
 		given := pick(r, [][]string{{"--name", "x"}, {"--id", "y"}, {"--all"}, {}})
 		return parseIn{Tree: t, Words: append(append(path, given...), pick(r, []string{"-", "--", "--a"}))}
 	}
+	if r.chance(8) && len(t.Cmds) > 1 {
+		// visibility probe: hidden and deprecated sub-commands / flags, with and without CARAPACE_HIDDEN,
+		// completing sub-command names (empty word) and flag names (`--`) of the parent
+		k := 1 + r.intn(len(t.Cmds)-1)
+		switch r.intn(3) {
+		case 0:
+			t.Cmds[k].Hidden = true
+		case 1:
+			t.Cmds[k].Deprecated = true
+		default:
+			t.Cmds[k].Hidden, t.Cmds[k].Deprecated = true, true
+		}
+		path := []string{}
+		for p := t.Cmds[k].Parent; p > 0; p = t.Cmds[p].Parent {
+			path = append([]string{t.Cmds[p].Name}, path...)
+		}
+		return parseIn{Tree: t, Words: append(path, pick(r, []string{"", "", "--", string(t.Cmds[k].Name[0])})), HiddenEnv: r.chance(50)}
+	}
 	return parseIn{Tree: t, Words: genLine(r, t), HiddenEnv: r.chance(10)}
 }
 
